@@ -11,6 +11,8 @@ pub fn all() -> BTreeMap<String, Predicate> {
     let mut m: BTreeMap<String, Predicate> = BTreeMap::new();
     m.insert("never".into(), never as Predicate);
     m.insert("residue_prone_split_ratio".into(), residue_prone_split_ratio as Predicate);
+    m.insert("two_sell_lines_one_day".into(), two_sell_lines_one_day as Predicate);
+    m.insert("two_buy_lots_one_day_after_sale_within_30_days".into(), two_buy_lots_after_sale as Predicate);
     m
 }
 
@@ -77,4 +79,41 @@ pub fn ledger_residue_prone(txs: &[Transaction]) -> bool {
 #[allow(dead_code)]
 pub fn rat_of(d: Decimal) -> Rat {
     Rat::from_dec(d)
+}
+
+fn ledgers_of(i: &Input, c: &Value) -> Vec<Vec<Transaction>> {
+    let mut v = vec![];
+    if let Input::Ledger(t) = i {
+        v.push(t.clone());
+    }
+    if let Some(s) = c.get("variant_ledger").and_then(|x| x.as_str()) {
+        if let Ok(t) = mcx::refparse::parse(s) {
+            v.push(t);
+        }
+    }
+    v
+}
+
+/// Some (date, security) carries two or more SELL lines (in the base ledger or in the compared variant):
+/// sells that are not adjacent after the date sort are matched separately.
+fn two_sell_lines_one_day(i: &Input, c: &Value) -> bool {
+    ledgers_of(i, c).iter().any(|l| {
+        l.iter().enumerate().any(|(a, x)| matches!(x.operation, Operation::Sell { .. }) && l.iter().skip(a + 1).any(|y| matches!(y.operation, Operation::Sell { .. }) && y.date == x.date && y.ticker == x.ticker))
+    })
+}
+
+/// Some (date, security) carries two or more BUY lines at different unit cost AND the security was sold in the
+/// preceding 30 days (so a 30-day claim reaches that day and takes the lot that happens to come first).
+fn two_buy_lots_after_sale(i: &Input, c: &Value) -> bool {
+    let unit = |t: &Transaction| match &t.operation {
+        Operation::Buy { amount, price, fees } if !amount.is_zero() => Some(Rat::from_dec(price.amount) + Rat::from_dec(fees.amount) / Rat::from_dec(*amount)),
+        _ => None,
+    };
+    ledgers_of(i, c).iter().any(|l| {
+        l.iter().enumerate().any(|(a, x)| {
+            let Some(ux) = unit(x) else { return false };
+            l.iter().skip(a + 1).any(|y| y.date == x.date && y.ticker == x.ticker && unit(y).map(|uy| uy != ux).unwrap_or(false))
+                && l.iter().any(|s| matches!(s.operation, Operation::Sell { .. }) && s.ticker == x.ticker && s.date < x.date && (x.date - s.date).num_days() <= 30)
+        })
+    })
 }
